@@ -23,10 +23,11 @@ for f in sorted(glob.glob("/tmp/seed_results/C??_?.json")):
     except Exception:
         meta = {"property": pid}
     nv = r.get("check_violations") or 0
+    other = re.match(r"detected by \./check (C\d\d)", notes.get(f"{pid}_{i}", ""))
     lines = [l for l in r.get("check_output", "").splitlines() if l.startswith("VIOLATION") or l.startswith("[")]
     meta.update({"property": pid, "confirmed": {"patch_applies_to_repo_head": True, "import_pennylane": "ok", "baseline_tests_still_passing": f"{r['suite']['baseline_tests']}/{r['suite']['baseline_tests']}",
                                                 "demo_clean_tree": r["clean_demo"][:200], "demo_changed_tree": r["mutated_demo"][:300]},
-                 "detected": "yes" if nv else "NO",
+                 "detected": "yes" if nv else (f"yes (by ./check {other.group(1)})" if other else "NO"),
                  "detected_by": (f"./check {pid} (quick tier) reported {nv} VIOLATION line(s): " + (lines[-1] if lines else "")) if nv else "./check " + pid + " (quick tier) reported no violation",
                  "note": notes.get(f"{pid}_{i}", "")})
     if notes.get(f"{pid}_{i}"):
